@@ -180,6 +180,24 @@ Theorem C19_tx_shares_nonnegative : forall ops r, Forall mop_ok ops -> 0 <= shar
 Proof. exact shares_nonneg. Qed.
 Print Assumptions C19_tx_shares_nonnegative.
 
+(** The exchange's share of a fee in SEVERAL denoms: each entry of the share is the ceiling for its
+    own coin under its own denom's split (the denom's entry in the params, else the default split),
+    positive and never more than the coin; a coin contributes iff its amount and its split are
+    non-zero; no denom appears that is not in the fee. *)
+Theorem C19_exchange_split_per_denom : forall dflt tbl coins d x,
+  In (d, x) (exchange_split_coins dflt tbl coins) <->
+  exists a, In (d, a) coins /\ a <> 0 /\ split_for dflt tbl d <> 0 /\ x = exchange_split a (split_for dflt tbl d).
+Proof. exact exchange_split_coins_In. Qed.
+Print Assumptions C19_exchange_split_per_denom.
+
+Theorem C19_exchange_split_coins_is_ceiling : forall dflt tbl coins d x,
+  0 <= dflt <= 10000 -> Forall (fun e => 0 <= snd e <= 10000) tbl -> Forall (fun c => 0 <= snd c) coins ->
+  In (d, x) (exchange_split_coins dflt tbl coins) ->
+  exists a, In (d, a) coins /\
+    10000 * (x - 1) < a * split_for dflt tbl d <= 10000 * x /\ 0 < x <= a.
+Proof. exact exchange_split_coins_sound. Qed.
+Print Assumptions C19_exchange_split_coins_is_ceiling.
+
 (** Non-vacuity of the two blocks above: prefix-related price denoms (2 = "pea", 3 = "peach",
     4 = "peachy") and two message types paying recipient 0. *)
 Example C19_witness_quotes :
